@@ -130,7 +130,12 @@ class Scenario:
                     host = w.new_zeroconf(name="B", mode=socks)
                 log = BrowserLog(w, host, lookups)
                 # some variants browse a second type that nobody offers (a multi-type browser must not lose the first)
-                types = [type_, "_unoffered._tcp.local."] if self.variant.get("multi") else type_
+                spelled = type_
+                if self.variant.get("browse_cased"):
+                    # the application spells the type in other letter case than the offering host does (names are compared
+                    # case-insensitively: these are the instances of its type)
+                    spelled = type_.replace("_a.", "_A.").replace("_tcp", "_TCP")
+                types = [spelled, "_unoffered._tcp.local."] if self.variant.get("multi") else spelled
                 kw = {}
                 if self.variant.get("qm"):
                     from zeroconf import DNSQuestionType
@@ -367,6 +372,8 @@ def plan(tier: str) -> List[Tuple[str, Dict[str, Any], int]]:
             ("leave", {"browse_at": 5000, "after": 30, "how": "unregister", "late": True, "socks": "dual"}, 2),
             ("leave", {"browse_at": 5000, "after": 130, "how": "close", "late": True, "socks": "dual"}, 2),
             ("idle", {"browse_at": 0}, 1), ("flap", {"browse_at": 0}, 1),
+            ("unregister", {"browse_at": 0, "browse_cased": True}, 1), ("unregister", {"browse_at": 5000, "browse_cased": True}, 1),
+            ("unregister", {"browse_at": 5000, "late": True, "browse_cased": True}, 1),
             ("reregister", {"browse_at": 0}, 1), ("reregister", {"browse_at": 30_000, "late": True}, 1),
             ("reregister", {"browse_at": 0, "readdress": True}, 2),
             ("update-queued", {"browse_at": 1850, "update_at": 2000, "qm": True}, 1),
@@ -398,7 +405,7 @@ def run(tier: str, seed: int) -> Tuple[Stats, str, List[str], Dict[str, Any]]:
             raise HarnessError(f"C07 scenario {name} is not deterministic")
         if a[0] is None and a[2] < 8:
             raise HarnessError(f"C07 scenario {name} is vacuous: {a[2]} datagrams in the default execution")
-        label = f"{name}/{variant['browse_at']}{'/late' if variant.get('late') else ''}{'/multi' if variant.get('multi') else ''}{'/' + variant['socks'] if variant.get('socks') else ''}{'/' + variant['how'] + '+' + str(variant['after']) if name == 'leave' else ''}{'/qm' if variant.get('qm') else ''}{'/long' if variant.get('long') else ''}" + (
+        label = f"{name}/{variant['browse_at']}{'/late' if variant.get('late') else ''}{'/multi' if variant.get('multi') else ''}{'/' + variant['socks'] if variant.get('socks') else ''}{'/' + variant['how'] + '+' + str(variant['after']) if name == 'leave' else ''}{'/qm' if variant.get('qm') else ''}{'/long' if variant.get('long') else ''}{'/browse_cased' if variant.get('browse_cased') else ''}" + (
             f"/unreg+{variant['unregister_after']}" if name == "churn" else "") + "".join(
             f"/{k}={variant[k]}" if not isinstance(variant[k], bool) else f"/{k}" for k in ("update_at", "cased", "addr", "new_object")
             if k in variant and name == "update-queued") + ("/readdress" if variant.get("readdress") else "")
